@@ -213,14 +213,10 @@ def lsq_obligations(chk, mg, tier, rng):
             p1 = sum((a[d] * d * Xv ** (d - 1) for d in range(1, order + 1)), Sym({}))
             p2 = sum((a[d] * d * (d - 1) * Xv ** (d - 2) for d in range(2, order + 1)), Sym({}))
             got0 = Sym.of(out[0][j])
-            # out0 = exp(fitted(ln v)): compare the exponent through the exp atom's definition
-            exps = [n for n in got0.variables() if n in ctx.exp_def]
-            if len(exps) != 1 or not (got0 - 1 - Sym({((exps[0], 1),): Fraction(1)})).is_zero():
-                fails.append("omega is not exp(polynomial)")
-            else:
-                arg = ctx.exp_def[exps[0]].subs(sub)
-                if Z.prove_equal(arg, p0, name="C11:lsq:omega")[0] != "unsat":
-                    fails.append("ln omega(v) != p(ln v) for polynomial data")
+            # omega = exp(fitted(ln v)): substitute the polynomial data into the exponent (atoms are rebuilt by Sym.subs) and compare
+            # with exp(p(ln v)); both sides go through the same exp normal form
+            if Z.prove_equal(got0.subs(sub), p0.exp(), name="C11:lsq:omega")[0] != "unsat":
+                fails.append("omega(v) != exp(p(ln v)) for polynomial data")
             if Z.prove_equal(Sym.of(out[1][j]).subs(sub), -p1, name="C11:lsq:gamma")[0] != "unsat":
                 fails.append("gamma != -p'(ln v)")
             if Z.prove_equal(Sym.of(out[2][j]).subs(sub), -p2, name="C11:lsq:vdr")[0] != "unsat":
